@@ -1,5 +1,6 @@
 import Spine.StoreF
 import Spine.C02Refine
+import Spine.C02Idem
 import Spine.Store
 import Spine.Generated.Shapes
 import Spine.Generated.Wiring
@@ -7,48 +8,83 @@ import Spine.Generated.Wiring
 # C02 — replicated function data follows the SPINE restricted-exchange update rules
 
 Property theorems only. Lemmas: `Spine/UpdateThm.lean`, `SortThm.lean`, `C02Thm.lean`, `SelectThm.lean`,
-`C02Refine.lean`. Model: `Spine/Update.lean` (transcription of `model/update.go` + `model/collection_operations.go`
-over `Item := List (Option Nat)` with one `Shape` per list type), `Spine/Store.lean` (`FunctionData.UpdateData`).
-SPEC: `Spine/SpecKV.lean` — data as a map identifier → item, the cmdOption rules as overlay / restrict / erase.
-Tables regenerated from the tree under test on every run: `Spine/Generated/Shapes.lean` (G3),
-`Spine/Generated/Wiring.lean` (G4); row predicates in `Spine/C02Tables.lean`.
+`C02Refine.lean`, `C02Idem.lean`. SPEC: `Spine/SpecKV.lean` — data as a map identifier → item, the cmdOption
+rules as overlay / restrict / erase. Tables regenerated from the tree under test on every run:
+`Spine/Generated/Shapes.lean` (G3), `Spine/Generated/Wiring.lean` (G4); row predicates in `Spine/C02Tables.lean`.
 
-**Proved, for every shape (hence every list type of the table), all stored lists, all updates, no bound on sizes**
+## Which code the theorems are about
+
+* **Model as written** = `Spine.updateList` / `updateStore` / `updateData` (`Spine/Update.lean`, `Spine/Store.lean`):
+  the transcription of `model/update.go`, `model/collection_operations.go`, `spine/function_data.go` at the
+  PINNED commit, over `Item := List (Option Nat)` with one `Shape` per list type.
+* **Family** = `Spine.updateListF c` (`Spine/UpdateF.lean`, C04 / C11), indexed by the defect flags
+  `mergeStrict, selNilPanics, emptySelPanics, inplaceAltersFlag, deleteStrict`, plus `Tables.SelFacts`
+  (`nilPanics, structDeep`: how `SelectorMatch` treats nil item fields and struct values) which decides how the
+  selector fields of a list type are encoded in the model's `selMap`. The harness probes all of them on the tree
+  under test. All flags on and `SelFacts.asWritten` = the pinned commit (`c02_family_member_as_written`).
+* **Repaired HEAD** (after the `fix:` commits incl. e4eb02d) probes to the member `cfg 0 0 0 0 0`, `selfacts 1`
+  (all defect flags off, nil check + `reflect.DeepEqual` in `SelectorMatch`).
+* `c02_every_member_on_decided`: on every input the SPEC decides, EVERY member of the family — the pinned commit,
+  HEAD, anything in between — computes exactly `updateList`. The flags only change behaviour on remote writes
+  (C04) and on inputs the SPEC does not decide (an item without the selected field, a selector with an empty list).
+  So every theorem below that is stated over `updateList` under `notDecided … = none` holds verbatim for HEAD's
+  member; the theorems `c02_repaired_*` speak about the repaired `SelectorMatch` directly; the remaining engine-level
+  clauses (`c02_selector_confines`, `c02_delete_removes`, `c02_delete_clears`, `c02_merge_unique_sorted`,
+  `c02_selector_first_match`) are about functions the local paths of all members share (proved for the model as
+  written; equal for every member wherever `SelectorMatch` does not panic, `c02_selectormatch_members_agree`).
+
+## Proved — every shape (hence every list type of the table), all stored lists, all updates, no size bound
+
 * `c02_refines` — on every input the SPEC decides (`notDecided … = none`: stored data with complete, pairwise
   distinct identifiers; update items with distinct complete identifiers, or one identifier-less item, or a
   selector matching at most one item; delete filter with selector and/or elements that name no identifier;
   all seven filter shapes) a local update succeeds and its result, as a map, is `SpecKV.apply` of the stored map;
   the result is again well-formed. Corollaries `c02_unique`, `c02_partial_keeps_unmentioned`.
-* `c02_sorted` — numeric identifiers: ordered data stays ordered; the merge path orders whatever it gets.
-* `c02_history`, `c02_history_sorted` — the same along any sequence of decided updates through the per-type
-  wrapper: stored data = fold of the rules.
-* `c02_idempotent_partial`, `c02_idempotent_identifierless` — list-level: re-applying a partial update
-  (merge path; identifier-less item over all) returns the same list.
+* `c02_sorted`, `c02_sorted_multikey` — numeric identifiers with any number of key fields: ordered data stays
+  ordered, the merge path orders whatever it gets, and "ordered" means: the identifier TUPLES increase strictly in
+  lexicographic order. `c02_comparator_strict_weak_order`: `SortData`'s comparator is irreflexive, asymmetric,
+  transitive, negatively transitive, and total on identifiers.
+* `c02_history`, `c02_history_sorted` — along any sequence of decided updates through the per-type wrapper:
+  stored data = fold of the rules, stays ordered.
+* **Idempotence**: `idempotentRegion` is the exact decidable side condition — the second application is decided
+  and the rules themselves give the same data at every identifier involved. `c02_idempotent` (numeric identifiers,
+  all seven filter shapes, as LISTS, whatever the order before), `c02_idempotent_map` (every kind of identifier,
+  as maps), `c02_idempotent_selector` (selector updates, with or without delete filter, any identifiers, as
+  lists), `c02_idempotent_delete` (delete filters alone), plus the unconditional `c02_idempotent_partial`,
+  `c02_idempotent_identifierless`. Outside the region: `c02_rules_not_idempotent_witness`.
+* **Several matches** (beyond the SPEC's decided region): `c02_selector_first_match` / `c02_selector_no_match` — a
+  partial update with a selector changes the first matching item only (overlay), every other item stays as it is;
+  `c02_delete_removes_all_matches` — a delete selector removes EVERY matching item and keeps every other.
 * the four clauses of the statement on the engine functions themselves, with weaker hypotheses than
   `c02_refines`: `c02_full_replaces`, `c02_merge_unique_sorted`, `c02_selector_confines` (any number of
-  matches, remote writes included), `c02_delete_removes`, `c02_delete_clears`.
-* `c02_all_shapes`, `c02_wiring`, `c02_wiring_failing_exact`, `c02_instances` — decided over the regenerated
-  tables: every list type has a shape the theorems apply to; every `UpdateList` method outside the generated
-  list `wiringFailing` reads, passes and assigns one list field, persists only under `success && persist` and
-  returns the data; `wiringFailing` is exactly the set of rows that do not (three on the pinned tree).
+  matches, remote writes included, generic in `Shape` — hence also for struct-typed selector fields),
+  `c02_delete_removes`, `c02_delete_clears`.
+* **Repaired `SelectorMatch`** (`SelFacts` = ⟨false, true⟩, HEAD): `c02_repaired_selector_classes` (per class of
+  selector field and list type how it is encoded: scalar, struct and non-comparable struct fields are compared
+  with the item field of the same name; a field of another pointer type is compared but can never be equal; a
+  non-pointer item field never matches; the rest is ignored), `c02_repaired_selectors_total`,
+  `c02_repaired_selectormatch_decides_equality` (total, and answers exactly `SpecKV.selMatches`),
+  `c02_repaired_selectormatch_never_panics`; `c02_selector_encodings` for the other `SelFacts`.
+* `c02_all_shapes`, `c02_wiring`, `c02_wiring_failing_exact`, `c02_instances`, `c02_all_types`, `c02_wiring_covers`
+  — decided over the regenerated tables: every list type has a shape the theorems apply to; every `UpdateList`
+  method outside the generated list `wiringFailing` (empty on HEAD, three rows on the pinned commit) reads, passes
+  and assigns one list field, persists only under `success && persist` and returns the data; `wiringFailing` is
+  exactly the set of rows that do not.
 
-* `c02_selector_encodings`, `c02_repaired_selectors_total`, `c02_repaired_selectormatch_never_panics` — how the
-  selector fields of every list type are encoded for the model under each behaviour of `SelectorMatch`
-  (`Tables.SelFacts`, probed on the tree: nil item field ⇒ panic / no match; struct values compared with `!=` /
-  deeply), and that with nil check + deep comparison no selector on any list type can make `SelectorMatch` panic.
+## Refuted (kernel-checked witnesses)
 
-**Refuted (kernel-checked witnesses)**
 * `c02_full_sorted_refuted` — a full update is stored as received: unordered input stays unordered
-  (finding `fastpath-stores-as-received`); `c02_full_sorted_partial` is the region where the clause holds.
+  (finding `fastpath-stores-as-received`, still open on HEAD); `c02_full_sorted_partial` is the region where the
+  clause holds.
 * `c02_rules_not_idempotent_witness` — the *rules themselves* are not idempotent when a delete selector tests a
-  field the partial part of the same update changes; the clause "a second application changes nothing" is
-  therefore demanded (and monitored) only where the SPEC itself gives the same data twice.
+  field the partial part of the same update changes (`idempotentRegion = false` there).
 
-**Not proved here** (covered by correspondence + monitor only): list-level idempotence of selector updates and of
-delete filters (with or without a partial part);
-inputs the SPEC does not decide (duplicate or missing identifiers, selectors matching several items, elements
-naming an identifier, identifier-less types): there only the clauses above with weaker hypotheses apply;
-remote writes (`remoteWrite = true`, C04); panics (C05); sharing of backing arrays (C11).
+## Not proved here (correspondence + monitor only)
+
+Inputs the SPEC does not decide, beyond the several-matches theorems above: duplicate or missing identifiers,
+elements naming an identifier, identifier-less types — there only the clauses with weaker hypotheses apply.
+List-level idempotence for non-numeric identifiers on the sorting paths (map-level is proved). Remote writes
+(`remoteWrite = true`, C04); panics (C05); sharing of backing arrays (C11).
 -/
 namespace Spine.Props.C02
 open Spine Spine.SpecKV Spine.Tables
@@ -274,6 +310,133 @@ theorem c02_rules_not_idempotent_witness :
     (match updateList witShape false witOnce witUpdate none witDelete with | .ok r => r.out | .panic _ => []) = witTwice := by
   decide
 
+/-- the witness above lies outside `idempotentRegion`; the decided example of the first section lies inside -/
+example : idempotentRegion witShape witStore witUpdate none witDelete = false ∧
+    idempotentRegion exShape exStore exUpdate none exDelete = true ∧
+    idempotentRegion exShape exStore [[none, none, some 1, none, none]] (some ⟨some [some 2], none⟩) exDelete = true := by
+  decide
+
+/-- **Idempotence as maps** — every kind of identifier, all seven filter shapes: inside `idempotentRegion` the
+    second application succeeds, yields well-formed data, and that data is the same map. -/
+theorem c02_idempotent_map (sh : Shape) (hk : structKeyLast sh.keys = true) (st nw : List Item) (fp fd : Option Filter)
+    (hreg : idempotentRegion sh st nw fp fd = true) :
+    ∀ r, updateList sh false st nw fp fd = .ok r →
+      ∃ r', updateList sh false r.out nw fp fd = .ok r' ∧ r'.ok = true ∧ wfData sh r'.out = true ∧
+        abs sh r'.out = abs sh r.out :=
+  idem_map sh hk st nw fp fd hreg
+
+/-- **Idempotence** — numeric identifiers, all seven filter shapes, as LISTS: on every input the SPEC decides and
+    inside `idempotentRegion` (the second application is decided and the rules give the same data twice),
+    `updateList (updateList st u) u = updateList st u` — whatever the order of the stored data was. -/
+theorem c02_idempotent (sh : Shape) (hu : ∀ k ∈ sh.keys, k.2 = .uint) (hk : structKeyLast sh.keys = true)
+    (st nw : List Item) (fp fd : Option Filter) (hdec : notDecided sh st nw fp fd = none)
+    (hreg : idempotentRegion sh st nw fp fd = true) :
+    ∀ r, updateList sh false st nw fp fd = .ok r →
+      ∃ r', updateList sh false r.out nw fp fd = .ok r' ∧ r'.out = r.out ∧ r'.ok = true :=
+  idem_list sh hu hk st nw fp fd hdec hreg
+
+/-- **Idempotence of selector updates**, as lists, for EVERY kind of identifier, with or without a delete filter:
+    the selector path does not sort, so no numeric order is needed. -/
+theorem c02_idempotent_selector (sh : Shape) (hk : structKeyLast sh.keys = true) (st nw : List Item)
+    (sel : Item) (fd : Option Filter) (hreg : idempotentRegion sh st nw (some ⟨some sel, none⟩) fd = true) :
+    ∀ r, updateList sh false st nw (some ⟨some sel, none⟩) fd = .ok r →
+      ∃ r', updateList sh false r.out nw (some ⟨some sel, none⟩) fd = .ok r' ∧ r'.out = r.out ∧ r'.ok = true :=
+  idem_unsorted sh hk st nw _ fd hreg (Or.inl (by simp))
+
+/-- **Idempotence of delete filters** (selector, elements or both; no data), numeric identifiers, as lists. -/
+theorem c02_idempotent_delete (sh : Shape) (hu : ∀ k ∈ sh.keys, k.2 = .uint) (hk : structKeyLast sh.keys = true)
+    (st : List Item) (f : Filter) (hdec : notDecided sh st [] none (some f) = none)
+    (hreg : idempotentRegion sh st [] none (some f) = true) :
+    ∀ r, updateList sh false st [] none (some f) = .ok r →
+      ∃ r', updateList sh false r.out [] none (some f) = .ok r' ∧ r'.out = r.out ∧ r'.ok = true :=
+  idem_list sh hu hk st [] none (some f) hdec hreg
+
+example : notDecided exShape exStore [] none exDelete = none ∧ idempotentRegion exShape exStore [] none exDelete = true ∧
+    idempotentRegion exShape exStore [] none (some ⟨some [some 1], some [none, none, some 0, none, some 0]⟩) = true := by
+  decide
+
+/-! ## selectors that match several items; order on multi-key identifiers -/
+
+/-- **Partial update with a selector, any number of matches** (the weaker reading of "confines"): the code stops
+    at the first match. The items before it, which do not match, and ALL items after it are exactly as before; the
+    first matching item receives the overlay of the update's first item. -/
+theorem c02_selector_first_match (sh : Shape) (sel u0 : Item) (pre : List Item) (x : Item) (post : List Item)
+    (hpre : ∀ y ∈ pre, selectorMatch sh sel y = .ok false) (hx : selectorMatch sh sel x = .ok true) :
+    copyToSelected sh false (pre ++ x :: post) sel u0 = .ok (pre ++ copyNonNil u0 x :: post, true) :=
+  copyToSelected_first_match sh sel u0 pre x post hpre hx
+
+/-- … and when no item matches, nothing changes. -/
+theorem c02_selector_no_match (sh : Shape) (sel u0 : Item) (ex : List Item)
+    (h : ∀ y ∈ ex, selectorMatch sh sel y = .ok false) : copyToSelected sh false ex sel u0 = .ok (ex, true) :=
+  copyToSelected_no_match sh sel u0 ex h
+
+example : (match copyToSelected exShape false (exStore ++ exStore) [some 2] [none, none, some 1, none, none] with
+      | .ok x => some x.1 | .panic _ => none) =
+    some [[some 1, some 1, some 0, none, some 3], [some 2, some 1, some 1, none, none],
+          [some 1, some 1, some 0, none, some 3], [some 2, some 1, none, none, none]] := by decide
+
+/-- **Delete with a selector removes ALL matching items**, however many match (the selector defined on every stored
+    item): the update returns `SortData` of exactly the items that do not match — an item is in the result if and
+    only if it was stored and does not match. -/
+theorem c02_delete_removes_all_matches (sh : Shape) (s : Item) (st : List Item)
+    (hd : ∀ x ∈ st, selDefined sh s x = true) :
+    ∃ r, updateList sh false st [] none (some ⟨some s, none⟩) = .ok r ∧ r.ok = true ∧
+      r.out = sortData sh (st.filter (keepUnless sh s)) ∧
+      ∀ x, x ∈ r.out ↔ (x ∈ st ∧ selMatches sh s x = false) :=
+  delete_removes_all sh s st hd
+
+example : (match updateList witShape false (witStore ++ [[some 3, none, some 1, none, none]]) [] none
+        (some ⟨some [none, none, some 1], none⟩) with | .ok r => r.out | .panic _ => []) =
+    [[some 1, none, some 0, none, some 3]] := by decide
+
+/-- **`SortData`'s comparator is a strict weak order** on items with complete numeric identifiers (any number of
+    key fields): irreflexive, asymmetric, transitive, negatively transitive (so "neither is less" is transitive),
+    and items of which neither is less have the SAME identifier (the order on identifiers is total). -/
+theorem c02_comparator_strict_weak_order (sh : Shape) (a b c : Item)
+    (ha : Keyed sh a) (hb : Keyed sh b) (hc : Keyed sh c) :
+    less sh a a = false ∧
+    (less sh a b = true → less sh b a = false) ∧
+    (less sh a b = true → less sh b c = true → less sh a c = true) ∧
+    (less sh a b = false → less sh b c = false → less sh a c = false) ∧
+    (less sh a b = false → less sh b a = false → keyOf sh a = keyOf sh b) :=
+  ⟨less_irrefl sh a ha, less_asymm sh a b ha hb, less_trans sh a b c ha hb hc, less_negtrans sh a b c ha hb hc,
+   less_total sh a b ha hb⟩
+
+/-- the comparator IS the lexicographic order on the tuple of key values … -/
+theorem c02_comparator_is_lexicographic (sh : Shape) (a b : Item) (ha : Keyed sh a) (hb : Keyed sh b) :
+    less sh a b = lexLt (keyOf sh a) (keyOf sh b) :=
+  less_eq_lexLt sh a b ha hb
+
+/-- … first key first: `(x, xs) < (y, ys)` iff `x < y`, or `x = y` and `xs < ys`. -/
+theorem c02_lexicographic (x y : Nat) (xs ys : List Nat) :
+    lexLt (x :: xs) (y :: ys) = true ↔ x < y ∨ (x = y ∧ lexLt xs ys = true) :=
+  lexLt_cons x y xs ys
+
+/-- **Ordered by numeric identifier, multi-key**: after every decided update on ordered data the identifier TUPLES
+    of the result increase STRICTLY in lexicographic order along the list (1, 2 or 3 numeric key fields alike). -/
+theorem c02_sorted_multikey (sh : Shape) (hu : ∀ k ∈ sh.keys, k.2 = .uint) (hk : structKeyLast sh.keys = true)
+    (st nw : List Item) (fp fd : Option Filter) (h : notDecided sh st nw fp fd = none) (hs : Sorted sh st) :
+    ∀ r, updateList sh false st nw fp fd = .ok r →
+      r.out.Pairwise fun a b => lexLt (keyOf sh a) (keyOf sh b) = true := by
+  intro r hr
+  obtain ⟨r', hr', _, hwf, _⟩ := refines_decided sh hk st nw fp fd h
+  rw [hr] at hr'
+  injection hr' with hr'
+  subst hr'
+  have hw := wf_of_wfData sh _ hwf
+  exact strict_of_sorted sh r.out (keyed_of_wf sh hu _ hw) hw.nodup (sorted_decided sh hu hk st nw fp fd h hs r hr)
+
+/-- the shape of `ElectricalConnectionCharacteristicListDataType` (three numeric keys) -/
+def ex3Shape : Shape :=
+  { n := 7, keys := [(0, .uint), (1, .uint), (2, .uint)], flag := none, selMap := [some 0, some 1, some 2, some 3, some 4],
+    elN := 7, elMap := (List.range 7).map some }
+
+example : (match updateList ex3Shape false
+      [[some 0, some 1, some 1, none, none, none, none], [some 1, some 0, some 0, none, none, none, none]]
+      [[some 0, some 1, some 0, none, none, none, none], [some 0, some 0, some 2, none, none, none, none]] none none with
+      | .ok r => r.out.map (keyOf ex3Shape) | .panic _ => []) = [[0, 0, 2], [0, 1, 0], [0, 1, 1], [1, 0, 0]] := by
+  decide
+
 /-! ## every registered list type (regenerated tables) -/
 
 /-- every list type of the tree under test has a shape the engine theorems apply to: identifier fields exist
@@ -316,6 +479,38 @@ theorem c02_repaired_selectormatch_never_panics (t : ListType) (ht : t ∈ Gener
   cases selectorMatch (shapeFor ⟨false, true⟩ t) sel it with
   | ok b => exact ⟨b, rfl⟩
   | panic s => exact ⟨false, rfl⟩
+
+/-- **per class of selector field, on the repaired tree** (`SelFacts` ⟨false, true⟩ = nil check + `DeepEqual`,
+    HEAD): a field of class scalar, struct or non-comparable struct is compared with the item field of the same
+    name; a field whose item field has another pointer type is compared too (and can never be equal: values of
+    different types); a field whose item field is not a pointer gets the entry `n` (never matches, never panics); an
+    ignored field takes no part -/
+def classEncodedOK (n : Nat) : List (Option Nat) → List SelType → List (Option Nat) → Bool
+  | i :: is, t :: ts, e :: es =>
+    (match t with
+     | .ignored => e == none
+     | .nonptr => e == some n
+     | _ => e == i && (match i with | some x => x < n | none => false)) && classEncodedOK n is ts es
+  | [], [], [] => true
+  | _, _, _ => false
+
+theorem c02_repaired_selector_classes : ∀ t ∈ Generated.listTypes,
+    classEncodedOK t.shape.n t.shape.selMap t.selTypes (shapeFor ⟨false, true⟩ t).selMap = true := by
+  decide +kernel
+
+/-- **the repaired `SelectorMatch` is total and decides equality**, for every list type of the table and every
+    class of selector field (struct-typed ones included): it never panics and answers exactly the SPEC's
+    `selMatches` — every field the selector sets names an item field that is present and equal. -/
+theorem c02_repaired_selectormatch_decides_equality (t : ListType) (ht : t ∈ Generated.listTypes) (c : UCfg)
+    (hc : c.selNilPanics = false) (sel it : Item) :
+    selectorMatchF c (shapeFor ⟨false, true⟩ t) sel it = .ok (selMatches (shapeFor ⟨false, true⟩ t) sel it) :=
+  selectorMatchF_decides c hc _ sel it (c02_repaired_selectors_total t ht)
+
+/-- where the selector is defined on the item (it carries every field the selector names) every member's
+    `SelectorMatch` — pinned commit, HEAD — is the same function -/
+theorem c02_selectormatch_members_agree (c : UCfg) (sh : Shape) (sel it : Item) (hl : it.length ≤ sh.n)
+    (hd : selDefined sh sel it = true) : selectorMatchF c sh sel it = selectorMatch sh sel it :=
+  selectorMatchF_defined c sh sel it hl hd
 
 /-- the combined form of DESIGN §8: every list type has a good shape and — unless the translator lists its
     method as failing (`c02_wiring_failing_exact` keeps that list honest) — a well-wired `UpdateList` -/
@@ -375,5 +570,33 @@ theorem c02_family_member_as_written (sh : Shape) (remote persist fpNil fdNil : 
     updateDataF .asWritten sh remote persist fpNil fdNil store nw fp fd
       = updateData sh remote persist fpNil fdNil store nw fp fd :=
   ⟨updateListF_asWritten sh remote store nw fp fd, updateDataF_asWritten sh remote persist fpNil fdNil store nw fp fd⟩
+
+/-- **Every member of the family on the inputs the SPEC decides.** Whatever the defect flags — all on (the pinned
+    commit), all off (`cfg 0 0 0 0 0`, the repaired HEAD), or any mixture — a local update the SPEC decides is
+    computed exactly as by `updateList`, through the per-type wrapper and `FunctionData.UpdateData` as well.
+    Hence `c02_refines`, `c02_unique`, `c02_sorted`, `c02_sorted_multikey`, `c02_history`, `c02_idempotent*`
+    are theorems about the member the check runs against HEAD. -/
+theorem c02_every_member_on_decided (c : UCfg) (sh : Shape) (st nw : List Item) (fp fd : Option Filter)
+    (h : notDecided sh st nw fp fd = none) (persist fpNil fdNil : Bool) :
+    updateListF c sh false st nw fp fd = updateList sh false st nw fp fd ∧
+    updateStoreF c sh false persist st nw fp fd = updateStore sh false persist st nw fp fd ∧
+    updateDataF c sh false persist fpNil fdNil st nw fp fd = updateData sh false persist fpNil fdNil st nw fp fd := by
+  have h1 := updateListF_decided c sh st nw fp fd h
+  have h2 : updateStoreF c sh false persist st nw fp fd = updateStore sh false persist st nw fp fd := by
+    unfold updateStoreF updateStore
+    rw [h1]
+    cases updateList sh false st nw fp fd <;> rfl
+  refine ⟨h1, h2, ?_⟩
+  unfold updateDataF updateData
+  rw [h2]
+  cases updateStore sh false persist st nw fp fd <;> rfl
+
+/-- the member HEAD probes to -/
+def headMember : UCfg :=
+  { mergeStrict := false, selNilPanics := false, emptySelPanics := false, inplaceAltersFlag := false, deleteStrict := false }
+
+example : (match updateListF headMember exShape false exStore exUpdate none exDelete with
+     | .ok r => r.out | .panic _ => []) =
+      [[some 0, none, none, none, some 7], [some 1, some 1, some 1, none, some 3]] := by decide
 
 end Spine.Props.C02
